@@ -42,6 +42,9 @@ fn atoms() -> Vec<Basic> {
         Basic::Cmp { lhs: gen::cur_name("n"), op: CmpOp::Eq, rhs: gen::lit_int(1) },
         Basic::Cmp { lhs: gen::cur_name("n"), op: CmpOp::Lt, rhs: gen::root_name("k") },
         Basic::Test { not: false, test: TestExpr::Func(FuncCall { name: "match".into(), args: vec![Arg::Query(cur("s")), Arg::Lit(Literal::Str("x".into()))] }) },
+        // operands that do not mention @ at all (true resp. false for the carrier document)
+        t(Query::root(vec![gen::name_seg("k")])),
+        Basic::Cmp { lhs: gen::root_name("k"), op: CmpOp::Eq, rhs: gen::lit_int(3) },
         Basic::Cmp { lhs: Comparable::Func(FuncCall { name: "count".into(), args: vec![Arg::Query(Query::current(vec![Segment::child(Selector::Wildcard)]))] }), op: CmpOp::Gt, rhs: gen::lit_int(2) },
     ]
 }
@@ -159,6 +162,28 @@ fn equivalents(f: &Or, rng: &mut Rng) -> Vec<(&'static str, Or)> {
     v
 }
 
+/// deep nesting with a known meaning: (query, document) pairs for depths 1..=100
+fn depth_ladders() -> Vec<(String, J)> {
+    let mut out = vec![];
+    let o = |v: Vec<(&str, J)>| J::Obj(v.into_iter().map(|(k, v)| (k.to_string(), v)).collect());
+    let flat = J::Arr(vec![o(vec![("a", J::int(1))]), o(vec![("b", J::int(1))]), o(vec![("a", J::Null), ("b", J::int(2))]), o(vec![]), J::int(3)]);
+    for d in [1usize, 2, 3, 8, 15, 16, 17, 30, 31, 32, 33, 34, 40, 48, 63, 64, 65, 100] {
+        out.push((format!("$[?{}@.a || @.b{}]", "(".repeat(d), ")".repeat(d)), flat.clone()));
+        out.push((format!("$[?{}@.a{}]", "(".repeat(d), ")".repeat(d)), flat.clone()));
+        out.push((format!("$[?{}@.a{}]", "!(".repeat(d), ")".repeat(d)), flat.clone()));
+        out.push((format!("$[?{}@.a && !@.b{} || @ == 3]", "!(".repeat(d), ")".repeat(d)), flat.clone()));
+        out.push((format!("$[?@.b && {}@.a{}]", "(".repeat(d), ")".repeat(d)), flat.clone()));
+        // nested filters: the innermost test must still see its own @
+        let mut doc = J::Arr(vec![o(vec![("a", J::int(1))]), o(vec![("b", J::int(2))])]);
+        for _ in 0..d {
+            doc = J::Arr(vec![doc, J::Arr(vec![])]);
+        }
+        out.push((format!("$[?{}@.a{}]", "@[?".repeat(d), "]".repeat(d)), doc.clone()));
+        out.push((format!("$[?{}@.b == 2{}]", "@[?".repeat(d), "]".repeat(d)), doc));
+    }
+    out
+}
+
 fn existence_queries() -> Vec<&'static str> {
     vec![
         "$.v[?@.m]", "$.v[?!@.m]", "$.v[?@]", "$.v[?!@]", "$.v[?@.m[0]]", "$.v[?@.m.*]", "$.v[?@.m[*]]", "$.v[?!@.m.*]", "$.v[?$.z]", "$.v[?!$.z]", "$.v[?$.nope]", "$.v[?@..m]", "$.v[?@.*]", "$.v[?!@.*]",
@@ -269,6 +294,8 @@ pub fn run(ctx: &Ctx) -> Result<Evidence, String> {
     let sc_docs: Vec<Doc> = scoping_docs(&mut rng, ctx.tier.pick(150, 2000)).iter().map(Doc::new).collect();
     let ex_q = existence_queries();
     let sc_q = scoping_queries();
+    let ladders: Vec<(String, Doc)> = depth_ladders().into_iter().map(|(q, d)| (q, Doc::new(&d))).collect();
+    let n_lad = ladders.len();
     let n_f = fs.len() * 2; // arr + obj
     let n_ex = ex_q.len();
     let n_sc = sc_q.len() * sc_docs.len();
@@ -279,7 +306,7 @@ pub fn run(ctx: &Ctx) -> Result<Evidence, String> {
     qcfg.union_pm = 0;
     let seed = ctx.seed;
 
-    let acc = par_run(ctx, n_f + n_ex + n_sc + n_rand, |i, acc: &mut Acc| {
+    let acc = par_run(ctx, n_f + n_ex + n_sc + n_rand + n_lad, |i, acc: &mut Acc| {
         let (text, doc, fam, formula): (String, &Doc, &str, Option<Or>);
         if i < n_f {
             let f = &fs[i / 2];
@@ -298,6 +325,12 @@ pub fn run(ctx: &Ctx) -> Result<Evidence, String> {
             text = sc_q[k % sc_q.len()].to_string();
             doc = &sc_docs[k / sc_q.len()];
             fam = "scoping";
+            formula = None;
+        } else if i >= n_f + n_ex + n_sc + n_rand {
+            let (q, d) = &ladders[i - n_f - n_ex - n_sc - n_rand];
+            text = q.clone();
+            doc = d;
+            fam = "depth-ladder";
             formula = None;
         } else {
             let mut r = Rng::stream(seed, 9000 + i as u64);
@@ -416,7 +449,7 @@ pub fn run(ctx: &Ctx) -> Result<Evidence, String> {
     if acc.counters.get("HARNESS_unparsable").copied().unwrap_or(0) > 0 {
         return Err("a generated C05 query is not parsable by oracle (b)".into());
     }
-    let mut ev = Evidence::new("cases: (i) every formula of the enumerated family (6 atoms and their negations; all pairs under && and ||; sampled 3/4-operand precedence mixes and parenthesised/negated level-2 combinations) x a carrier whose 183 children realise the valuations of the atoms incl. falsy/empty member values, as array elements and as object member values; (ii) existence tests over members valued null,false,0,-0.0,\"\",[],{}; (iii) nested-filter scoping queries x curated + random documents; (iv) random nested filters. Oracles: reference evaluator (kept children in order), Boolean laws between rewritings (oracle-free), H2 per-child decisions. Non-trivial = distinct cases whose filter keeps some but (for formulas) not all children.");
+    let mut ev = Evidence::new("cases: (i) every formula of the enumerated family (6 atoms and their negations; all pairs under && and ||; sampled 3/4-operand precedence mixes and parenthesised/negated level-2 combinations) x a carrier whose 183 children realise the valuations of the atoms incl. falsy/empty member values, as array elements and as object member values; (ii) existence tests over members valued null,false,0,-0.0,\"\",[],{}; (iii) nested-filter scoping queries x curated + random documents; (iv) random nested filters; (v) parenthesis / negation / nested-filter ladders of depth 1..100 whose meaning is known. Oracles: reference evaluator (kept children in order), Boolean laws between rewritings (oracle-free), H2 per-child decisions. Non-trivial = distinct cases whose filter keeps some but (for formulas) not all children.");
     ev.set("exhaustive", json!(false));
     ev.set("formulas_enumerated", json!(fs.len()));
     ev.assume("reference evaluator (oracle c) as in C01; Boolean laws need no oracle");
